@@ -22,6 +22,7 @@ From Coq Require Import ZArith NArith List Bool.
 Import ListNotations.
 From Csvq.Model Require Import ExitCode.
 From Csvq.Proofs Require Import C19.
+Require Csvq.Model.Fixed Csvq.Proofs.Fixed.
 Local Open Scope Z_scope.
 
 (** the bound of the finite enumeration *)
@@ -146,3 +147,53 @@ Theorem error_status_nonzero_partial :
     process_status (Failed e) <> 0.
 Proof. exact error_status_nonzero_static. Qed.
 Print Assumptions error_status_nonzero_partial.
+
+(** ** the fixed-length loader (explicit delimiter positions, UTF-8): Model/Fixed.v *)
+Module FixedLength.
+Import Csvq.Model.Fixed Csvq.Proofs.Fixed.
+
+(** fixed_load_rectangular: for EVERY position list (valid or not), option vector and input, the model of
+    go-text/fixedlen's reader + loadViewFromFixedLengthTextFile returns an error, runs for ever, or a table
+    with exactly one header name and one cell per record for each delimiter position *)
+Theorem fixed_load_rectangular :
+  forall ps single noheader wn inp t,
+    fixed_load ps single noheader wn inp = FLTable t ->
+    length (t_header t) = length ps /\ rectangular t.
+Proof. exact fixed_load_rect. Qed.
+Print Assumptions fixed_load_rectangular.
+
+(** every returned record consumed input -- unless single-line mode meets an empty position list *)
+Theorem fixed_record_progress :
+  forall ps single wn inp rec rest,
+    ps <> [] \/ single = false ->
+    parse_record ps single wn inp = ROk rec rest -> (length rest < length inp)%nat.
+Proof. exact parse_record_progress. Qed.
+Print Assumptions fixed_record_progress.
+
+(** "loading always terminates" is false of the faithful model: 'S[]' on a non-empty input
+    (finding fixed-single-line-empty-positions: the real reader allocates until it is killed) *)
+Definition fixed_load_total : Prop :=
+  forall ps single noheader wn inp, fixed_load ps single noheader wn inp <> FLOutOfFuel.
+
+Theorem fixed_load_total_refuted : ~ fixed_load_total.
+Proof. intro H. apply (H [] true false false [97%N]). vm_compute. reflexivity. Qed.
+Print Assumptions fixed_load_total_refuted.
+
+Theorem fixed_load_total_partial :
+  forall ps single noheader wn inp,
+    ps <> [] \/ single = false ->
+    fixed_load ps single noheader wn inp <> FLOutOfFuel.
+Proof. exact fixed_load_terminates. Qed.
+Print Assumptions fixed_load_total_partial.
+
+(** non-vacuity: "ab  cd\n1   22\n" with positions [2;6] loads as header (ab, cd), one row (1, 22) *)
+Example fixed_load_example :
+  fixed_load [2; 6]%Z false false false [97;98;32;32;99;100;10;49;32;32;32;50;50;10]%N
+  = FLTable (mkTable [[97;98]; [99;100]]%N [[Some [49]%N; Some [50;50]%N]]).
+Proof. vm_compute. reflexivity. Qed.
+
+(** quirk kept: a lone CR at the very end of the input is an error *)
+Example fixed_trailing_cr_is_error :
+  fixed_load [1]%Z false true false [97; 13]%N = FLErr PE_UnreadRune.
+Proof. vm_compute. reflexivity. Qed.
+End FixedLength.
